@@ -307,4 +307,47 @@ theorem exFld_wf : WF exFld := by
       omega
     rcases this with rfl | rfl <;> decide
 
+/-- a concrete 1-d field with 3 cells of length 1/2 -/
+def exFld1 : Fld :=
+  { mesh := { region := { pmin := [1], pmax := [5/2], dims := ["x"], units := ["m"], tol := 1/1000000000000 },
+              n := [3], bc := "", subs := [] },
+    nvdim := 1,
+    data := ⟨[3], fun i => [(i.getD 0 0 : Rat) + 1]⟩,
+    valid := NDA.const [3] true, vdims := none, vmap := [], unit := none }
+
+theorem exFld1_wf : WF exFld1 := by
+  refine ⟨⟨⟨by decide, by decide, by decide, by decide, by decide, ?_⟩, by decide, ?_⟩, rfl⟩
+  · intro a ha
+    have : a = 0 := by
+      have : a < 1 := ha
+      omega
+    subst this; norm_num [exFld1, Region.lo, Region.hi]
+  · intro a ha
+    have : a = 0 := by
+      have : a < 1 := ha
+      omega
+    subst this; decide
+
+/-- a concrete 2×2×3 field with all cell sizes different (1, 1/2, 2) -/
+def exFld3 : Fld :=
+  { mesh := { region := { pmin := [0, 0, -1], pmax := [2, 1, 5], dims := ["x", "y", "z"],
+                          units := ["m", "m", "m"], tol := 1/1000000000000 },
+              n := [2, 2, 3], bc := "", subs := [] },
+    nvdim := 1,
+    data := ⟨[2, 2, 3], fun i => [(i.getD 0 0 : Rat) + 3 * (i.getD 1 0 : Rat) + 7 * (i.getD 2 0 : Rat)]⟩,
+    valid := NDA.const [2, 2, 3] true, vdims := none, vmap := [], unit := some "T" }
+
+theorem exFld3_wf : WF exFld3 := by
+  refine ⟨⟨⟨by decide, by decide, by decide, by decide, by decide, ?_⟩, by decide, ?_⟩, rfl⟩
+  · intro a ha
+    have : a = 0 ∨ a = 1 ∨ a = 2 := by
+      have : a < 3 := ha
+      omega
+    rcases this with rfl | rfl | rfl <;> decide
+  · intro a ha
+    have : a = 0 ∨ a = 1 ∨ a = 2 := by
+      have : a < 3 := ha
+      omega
+    rcases this with rfl | rfl | rfl <;> decide
+
 end DFV.C06
